@@ -401,5 +401,6 @@ def run(facts, rep, ctx):
     """rules added after the fifth seeding round (rules/round6.py)"""
     _run_before_round6(facts, rep, ctx)
     from . import round6
+    round6.cf2(facts, rep, ['seq_analysis::orf::', 'alphabets::'], 70)
     round6.tb14(facts, rep)
     round6.nc3(facts, rep)
